@@ -109,10 +109,17 @@ def r08_2(run, model):
                     if pb:
                         idx_names.add(pb[0])
                 for cl in S.find(region, "Closure"):
-                    if cl["inputs"]:
+                    if cl["inputs"] and S.span_contains(region["sp"], cl["sp"]):
                         pb = S.pat_bindings(cl["inputs"][0])
-                        if pb and S.span_contains(region["sp"], cl["sp"]):
+                        if pb:
                             idx_names.add(pb[0])
+                        # fold-style closures |acc, (i, x)|: the index is the first binder of a tuple-patterned input
+                        for inp in cl["inputs"]:
+                            ip = S.strip_refs(inp)
+                            if ip["k"] == "PTuple":
+                                pb2 = S.pat_bindings(ip)
+                                if pb2:
+                                    idx_names.add(pb2[0])
                 positional = False
                 for x in S.walk(region):
                     if x["k"] == "Index" and S.idents(x["index"]) & idx_names:
